@@ -279,50 +279,10 @@ Proof.
   destruct (G tg H); auto.
 Qed.
 
-(** ---- scopeOf: the result is the target or one of its children, and it is a ScopeBlock ---- *)
-Definition is_sb (s : pstate) (y : N) : Prop := exists o, tget (p_tree s) y = Some o /\ o_opcode o = aml_pOpIntScopeBlock.
-
-Lemma nestedScope_spec2 fuel : forall idx p s g, TI s g -> (idx = InvalidIndex \/ In idx (kids g p)) ->
-  wp True (nestedScope_go fuel idx) s (fun r s' => s' = s /\ forall y, r = Some y -> In y (kids g p) /\ is_sb s y).
-Proof.
-  induction fuel as [|fuel IH]; intros idx p s g H Hidx; cbn [nestedScope_go].
-  { apply wp_outOfFuel. exact I. }
-  pose proof (ti_R _ _ H) as HR.
-  destruct (N.eqb_spec idx InvalidIndex) as [E|E].
-  { apply wp_ret. split; auto. discriminate. }
-  destruct Hidx as [?|Hin]; [contradiction|].
-  destruct ((R_gwf _ _ HR) _ _ Hin) as (Hlp & Hl).
-  apply wp_bind. apply wp_objectAt'; [apply (TI_ObjectAt _ _ _ H Hl)|].
-  destruct (in_split _ _ Hin) as (l1 & l2 & Ek).
-  destruct (sibling_links _ _ HR _ l1 idx l2 Hlp Ek) as (o & Ho & Hlo & _ & _ & En & _).
-  apply wp_bind. apply wp_rdf. exists o. split; [exact Ho|].
-  destruct (N.eqb_spec (o_opcode o) aml_pOpIntScopeBlock) as [Eop|Eop].
-  { apply wp_ret. split; auto. intros y Ey. inversion Ey; subst. split; [exact Hin|]. exists o. auto. }
-  apply wp_bind. apply wp_rdf. exists o. split; [exact Ho|].
-  apply IH; auto. rewrite En. destruct l2 as [|z l2]; [left; reflexivity|right]. cbn [hd].
-  rewrite Ek. apply in_or_app. right. right. left. reflexivity.
-Qed.
-
-Lemma scopeOf_spec2 target s g : TI s g -> glive g target ->
-  wp True (scopeOf target) s (fun r s' => s' = s /\ forall y, r = Some y -> (y = target \/ In y (kids g target)) /\ is_sb s y).
-Proof.
-  intros H Hl. unfold scopeOf. pose proof (ti_R _ _ H) as HR.
-  apply wp_bind. apply wp_objectAt'; [apply (TI_ObjectAt _ _ _ H Hl)|].
-  destruct (TI_live_get _ _ _ H Hl) as (o & Ho & Hlo).
-  apply wp_bind. apply wp_rdf. exists o. split; [exact Ho|].
-  destruct (N.eqb_spec (o_opcode o) aml_pOpIntScopeBlock) as [Eop|Eop].
-  { apply wp_ret. split; auto. intros y Ey. inversion Ey; subst. split; [left; reflexivity|]. exists o. auto. }
-  apply wp_bind. apply wp_rdf. exists o. split; [exact Ho|].
-  apply wp_bind, wp_get.
-  eapply wp_weaken; [apply (nestedScope_spec2 _ (o_first o) target s g H)|auto|].
-  - destruct (R_kids _ _ HR _ _ Ho Hlo) as (Hf & _). rewrite Hf.
-    destruct (kids g target) as [|c l]; [left; reflexivity|right; left; reflexivity].
-  - intros r s' (-> & Hr). split; auto. intros y Ey. destruct (Hr y Ey). split; auto.
-Qed.
-
 (** ---- the shape of the Scope directives of the table being loaded ---- *)
-Definition sdir (tbls : list (list N)) (t : T) (g : ghost) (x : N) (xname : Name) : Prop :=
+Definition sdir (tbls : list (list N)) (t : T) (g : ghost) (x : N) (xname : Name) (xinfo : N) : Prop :=
   name_lead xname = false /\
+  (forall op fl af, opInfo xinfo = Some (op, fl, af) -> hasFlag fl aml_pOpFlagNamed = false) /\
   exists n c no co tbl sl,
     kids g x = [n; c] /\ kids g n = [] /\
     tget t n = Some no /\ o_opcode no <> aml_pOpIntScopeBlock /\ o_opcode no <> aml_pOpScope /\
@@ -331,7 +291,7 @@ Definition sdir (tbls : list (list N)) (t : T) (g : ghost) (x : N) (xname : Name
     tget t c = Some co /\ o_opcode co = aml_pOpIntScopeBlock.
 
 Definition tyS (X : N -> Prop) (tbls : list (list N)) (h : N) (t : T) (g : ghost) : Prop :=
-  forall x xo, tget t x = Some xo -> o_opcode xo = aml_pOpScope -> o_tableHandle xo = h -> ~ X x -> sdir tbls t g x (o_name xo).
+  forall x xo, tget t x = Some xo -> o_opcode xo = aml_pOpScope -> o_tableHandle xo = h -> ~ X x -> sdir tbls t g x (o_name xo) (o_infoIndex xo).
 
 Lemma tyS_weaken (X X' : N -> Prop) tbls h t g : (forall y, X y -> X' y) -> tyS X tbls h t g -> tyS X' tbls h t g.
 Proof. intros Hs H x xo Hg Ho Hh Hx. apply (H x xo); auto. Qed.
@@ -348,13 +308,13 @@ Lemma tyS_move X tbls h (t t2 : T) g g2 par target m :
 Proof.
   intros H Hpf Hk (po & Hpo & Epo) (to & Hto & Eto) x xo2 Hg2 Hop Hh HX.
   destruct (pframe_inv _ _ _ _ Hpf Hg2) as (xo & Hg & E).
-  destruct E as (E1 & _ & E3 & E4 & _).
+  destruct E as (E1 & E2 & E3 & E4 & _).
   assert (Hsame : forall q qo, tget t q = Some qo -> o_opcode qo <> aml_pOpIntScopeBlock -> kids g2 q = kids g q).
   { intros q qo Hq Hne. rewrite Hk.
     destruct (N.eqb_spec q par) as [->|_]; [exfalso; apply Hne; congruence|].
     destruct (N.eqb_spec q target) as [->|_]; [exfalso; apply Hne; congruence|]. apply app_nil_r. }
-  destruct (H x xo Hg) as (Hn & n & c & no & co & tbl & sl & K1 & K2 & K3 & K4 & K5 & K6 & K7 & K8 & K9); try congruence.
-  split; [congruence|].
+  destruct (H x xo Hg) as (Hn & Hnn & n & c & no & co & tbl & sl & K1 & K2 & K3 & K4 & K5 & K6 & K7 & K8 & K9); try congruence.
+  split; [congruence|]. split; [rewrite E2; exact Hnn|].
   destruct (proj2 Hpf _ _ K3) as (no2 & Hno2 & F1 & _ & _ & _ & _ & _ & _ & F8).
   destruct (proj2 Hpf _ _ K8) as (co2 & Hco2 & G1 & _).
   exists n, c, no2, co2, tbl, sl.
@@ -382,11 +342,11 @@ Proof.
   assert (Hxy : x <> y).
   { intros ->. specialize (Hfr _ Hg'). rewrite Hop in Hfr. discriminate. }
   destruct (fframe_inv _ _ _ _ _ Hff Hg') as (xo & Hg & _ & E). specialize (E Hxy).
-  destruct E as (E1 & _ & E3 & E4 & _).
+  destruct E as (E1 & E2 & E3 & E4 & _).
   assert (Hop0 : o_opcode xo = aml_pOpScope) by congruence.
   assert (Hh0 : o_tableHandle xo = h) by congruence.
-  destruct (H x xo Hg Hop0 Hh0 HX) as (Hn & n & c & no & co & tbl & sl & K1 & K2 & K3 & K4 & K5 & K6 & K7 & K8 & K9).
-  split; [congruence|].
+  destruct (H x xo Hg Hop0 Hh0 HX) as (Hn & Hnn & n & c & no & co & tbl & sl & K1 & K2 & K3 & K4 & K5 & K6 & K7 & K8 & K9).
+  split; [congruence|]. split; [rewrite E2; exact Hnn|].
   pose proof (Hpar x xo Hg Hop0 Hh0 HX Hxy) as Hnin. rewrite K1 in Hnin.
   assert (Hny : n <> y) by (intros ->; apply Hnin; left; reflexivity).
   assert (Hcy : c <> y) by (intros ->; apply Hnin; right; left; reflexivity).
@@ -620,7 +580,7 @@ Proof.
       - apply evolve_refl.
       - apply sdesc_desc. }
   apply andb_prop in Econd. destruct Econd as (Eop & Eh). apply N.eqb_eq in Eop. apply N.eqb_eq in Eh.
-  destruct (mi_ty _ _ _ H1 x xo Hxo1 Eop Eh (fun F => F)) as (Hnl & n & c & no & co & tbl & sl & K1 & K2 & K3 & K4 & K5 & K6 & K7 & K8 & K9).
+  destruct (mi_ty _ _ _ H1 x xo Hxo1 Eop Eh (fun F => F)) as (Hnl & _ & n & c & no & co & tbl & sl & K1 & K2 & K3 & K4 & K5 & K6 & K7 & K8 & K9).
   rewrite K1 in Hfirst, Hlast. cbn [hd last] in Hfirst, Hlast.
   assert (Hin_n : In n (kids g x)) by (rewrite K1; left; reflexivity).
   assert (Hin_c : In c (kids g x)) by (rewrite K1; right; left; reflexivity).
@@ -722,7 +682,7 @@ Proof.
   { apply Hl4. split; [|exact Hxc_ne]. apply Hl3. split; [|exact Hxn_ne]. apply (shape_eq_glive _ _ _ S2). exact Hl. }
   apply wp_bind. apply (MI_free True X x (with_tree (with_tree s2 t3) t4) g4); [exact H4| exact Hlx4 | exact Hkx4 | exact Hx0 | |].
   { intros x' xo' Hx' Hop' Hh' HX' _ Hin'.
-    destruct (mi_ty _ _ _ H4 x' xo' Hx' Hop' Hh' HX') as (_ & n' & c' & no' & co' & tbl' & sl' & J1 & _ & J3 & _ & J5 & _ & _ & J8 & J9).
+    destruct (mi_ty _ _ _ H4 x' xo' Hx' Hop' Hh' HX') as (_ & _ & n' & c' & no' & co' & tbl' & sl' & J1 & _ & J3 & _ & J5 & _ & _ & J8 & J9).
     rewrite J1 in Hin'. cbn [In] in Hin'. destruct Hin' as [E|[E|[]]]; subst.
     - assert (no' = xo4) by (cbn [p_tree with_tree] in J3; congruence). subst. contradiction.
     - assert (co' = xo4) by (cbn [p_tree with_tree] in J8; congruence). subst. rewrite Eop4 in J9. discriminate. }
@@ -769,6 +729,7 @@ Theorem mergeScopeDirectives_never_panics : forall fuel x s g,
   (exists o, tget (p_tree s) 0 = Some o /\ o_opcode o = aml_pOpIntScopeBlock) ->
   (forall d dobj, tget (p_tree s) d = Some dobj -> o_opcode dobj = aml_pOpScope -> o_tableHandle dobj = p_handle s ->
      name_lead (o_name dobj) = false /\
+     (forall op fl af, opInfo (o_infoIndex dobj) = Some (op, fl, af) -> hasFlag fl aml_pOpFlagNamed = false) /\
      exists n c no co tbl sl,
        kids g d = [n; c] /\ kids g n = [] /\
        tget (p_tree s) n = Some no /\ o_opcode no <> aml_pOpIntScopeBlock /\ o_opcode no <> aml_pOpScope /\
@@ -782,6 +743,7 @@ Theorem mergeScopeDirectives_never_panics : forall fuel x s g,
       (exists o, tget (p_tree s') 0 = Some o /\ o_opcode o = aml_pOpIntScopeBlock) /\
       (forall d dobj, tget (p_tree s') d = Some dobj -> o_opcode dobj = aml_pOpScope -> o_tableHandle dobj = p_handle s' ->
          name_lead (o_name dobj) = false /\
+         (forall op fl af, opInfo (o_infoIndex dobj) = Some (op, fl, af) -> hasFlag fl aml_pOpFlagNamed = false) /\
          exists n c no co tbl sl,
            kids g' d = [n; c] /\ kids g' n = [] /\
            tget (p_tree s') n = Some no /\ o_opcode no <> aml_pOpIntScopeBlock /\ o_opcode no <> aml_pOpScope /\
@@ -878,6 +840,7 @@ Proof. intros H i o Hg. unfold TreeSpec.get in Hg. specialize (H _ _ Hg). rewrit
 Definition mex_dir_ok (d : N) (dobj : Object value) : Prop :=
   o_opcode dobj = aml_pOpScope -> o_tableHandle dobj = 1 ->
   name_lead (o_name dobj) = false /\
+  (forall op fl af, opInfo (o_infoIndex dobj) = Some (op, fl, af) -> hasFlag fl aml_pOpFlagNamed = false) /\
   exists n c no co tbl sl,
     kids mex_ghost d = [n; c] /\ kids mex_ghost n = [] /\
     tget mex_tree n = Some no /\ o_opcode no <> aml_pOpIntScopeBlock /\ o_opcode no <> aml_pOpScope /\
@@ -892,6 +855,7 @@ Lemma merge_hyps_example :
     (exists o, tget (p_tree s) 0 = Some o /\ o_opcode o = aml_pOpIntScopeBlock) /\
     (forall d dobj, tget (p_tree s) d = Some dobj -> o_opcode dobj = aml_pOpScope -> o_tableHandle dobj = p_handle s ->
        name_lead (o_name dobj) = false /\
+       (forall op fl af, opInfo (o_infoIndex dobj) = Some (op, fl, af) -> hasFlag fl aml_pOpFlagNamed = false) /\
        exists n c no co tbl sl,
          kids g d = [n; c] /\ kids g n = [] /\
          tget (p_tree s) n = Some no /\ o_opcode no <> aml_pOpIntScopeBlock /\ o_opcode no <> aml_pOpScope /\
@@ -920,7 +884,7 @@ Proof.
   { apply (pool_cases mex_tree mex_dir_ok). intros n o Hn. unfold mex_dir_ok.
     do 6 (destruct n as [|n]; [vm_compute in Hn; inversion Hn; subst o; intros Hop Hh;
       first [ vm_compute in Hop; discriminate
-            | split; [reflexivity|];
+            | split; [reflexivity|]; split; [intros op fl af Hrow; vm_compute in Hrow; inversion Hrow; reflexivity|];
               eexists 3, 4, _, _, 0, (mkSlice (Some 0) 4);
               split; [vm_compute; reflexivity|]; split; [vm_compute; reflexivity|];
               split; [vm_compute; reflexivity|]; split; [vm_compute; discriminate|]; split; [vm_compute; discriminate|];
